@@ -411,6 +411,33 @@ def run_case(c):
             res.violation('acquisition_time-value:%s' % c['kind'], 'acquisition_time is %r, expected %r; time channel %r, keywords %r' % (
                 at, want, c.get('timech'), kw), c)
             return res
+    # the answers do not depend on the order in which they are asked for: every attribute once more after the duration was computed, on
+    # the same object, and on a second load whose duration is asked FIRST
+    try:
+        with warnings.catch_warnings():
+            warnings.simplefilter('ignore')
+            d2 = FlowCal.io.FCSData(p)
+            at2 = d2.acquisition_time
+        for label, obj in (('after acquisition_time was read', d), ('when acquisition_time is read first', d2)):
+            for attr in ('time_step', 'acquisition_start_time', 'acquisition_end_time', 'channels', 'data_type'):
+                got = getattr(obj, attr)
+                if not eq(got, exp[attr]):
+                    res.violation('attr-order:%s:%s' % (attr, sigk), '%s is %r %s, the keywords say %r; optional keywords: %r' % (attr, got, label, exp[attr], kw), c)
+                    return res
+            for attr in ('channel_labels', 'range', 'resolution', 'amplification_type', 'detector_voltage', 'amplifier_gain'):
+                got = getattr(obj, attr)()
+                if not eq(list(got), list(exp[attr])):
+                    res.violation('attr-order:%s:%s' % (attr, sigk), '%s is %r %s, the keywords say %r; optional keywords: %r' % (attr, got, label, exp[attr], kw), c)
+                    return res
+        at3 = d.acquisition_time
+        same = lambda x, y: (x is None and y is None) or (x is not None and y is not None and float(x) == float(y))
+        if not (same(at, at2) and same(at, at3)):
+            res.violation('acquisition_time-order:%s' % c['kind'], 'acquisition_time is %r when read after the other attributes, %r when read first and %r when read again; keywords %r' % (
+                at, at2, at3, kw), c)
+            return res
+    except Exception as e:
+        res.violation('attr-order-raises:%s:%s' % (type(e).__name__, c['kind']), 'reading the attributes in another order raised %s: %s; keywords %r' % (type(e).__name__, e, kw), c)
+        return res
     src = 'none' if exp['acquisition_time'] is None else 'any' if exp['acquisition_time'] == 'ANY' else \
         ('channel' if c.get('timech') and exp['time_step'] is not None else 'btim-etim')
     res.ok('%s:acq=%s' % (c['kind'], src), bool(kw))
